@@ -55,6 +55,9 @@ def _values(rng, cat, length, count, used):
             v = ''.join(rng.choice('UL') for _ in range(length))
         elif cat == 'K':
             v = rng.choice(KEYBOARD)[:length].ljust(length, '1')
+            # keyboard walks keep their own capitalisation (no mask applies to them): `1QAZ` and `1qaz` are two terminals
+            if rng.random() < 0.4:
+                v = v.upper() if rng.random() < 0.5 else v[:1] + v[1:].upper()
         elif cat == 'Y':
             v = rng.choice(YEARS)
         elif cat == 'X':
